@@ -557,6 +557,34 @@ Proof.
     pose proof (NoDup_incl_length NV I). lia.
 Qed.
 
+Lemma forall2_exists {A B} (P : A -> B -> Prop) (l : list A) :
+  (forall a, In a l -> exists b, P a b) -> exists bs, Forall2 P l bs.
+Proof.
+  induction l as [|a l IH]; intros H; [exists []; constructor|].
+  destruct (H a (or_introl eq_refl)) as (b&Hb). destruct (IH (fun x Hx => H x (or_intror Hx))) as (bs&Hbs).
+  exists (b :: bs). constructor; assumption.
+Qed.
+
+Lemma forall2_in_r {A B} (P : A -> B -> Prop) l bs b : Forall2 P l bs -> In b bs -> exists a, In a l /\ P a b.
+Proof.
+  induction 1 as [|a b' l bs' Hab _ IH]; intros Hin; [contradiction|].
+  destruct Hin as [->|Hin]; [exists a; split; [left; reflexivity | exact Hab]|].
+  destruct (IH Hin) as (x&Hx&Px). exists x. split; [right; exact Hx | exact Px].
+Qed.
+
+Lemma forall2_len {A B} (P : A -> B -> Prop) l bs : Forall2 P l bs -> length l = length bs.
+Proof. induction 1; simpl; congruence. Qed.
+
+Lemma forall2_nodup {A B} (P : A -> B -> Prop) l bs : NoDup l -> Forall2 P l bs ->
+  (forall a a' b b', In a l -> In a' l -> a <> a' -> P a b -> P a' b' -> b <> b') -> NoDup bs.
+Proof.
+  intros ND F. revert ND. induction F as [|a b l bs' Hab F IH]; intros ND D; [constructor|].
+  inversion ND as [|? ? Hn ND']; subst. constructor.
+  - intros Hin. destruct (forall2_in_r P l bs' b F Hin) as (x&Hx&Px).
+    apply (D a x b b (or_introl eq_refl) (or_intror Hx)); [intros E; subst; contradiction | exact Hab | exact Px | reflexivity].
+  - apply IH; [exact ND'|]. intros x x' y y' Hx Hx'. apply D; right; assumption.
+Qed.
+
 Section WF.
   Variables (s : mesh) (c : nat) (hfs V : list nat).
   Hypothesis WF : tet_wf s c hfs V.
@@ -601,10 +629,10 @@ Section WF.
 
   Lemma other_of_ok hf : In hf hfs -> In (other_of hf) hfs /\ other_of hf <> hf.
   Proof.
-    intros H. unfold other_of. destruct hfs as [|h0 [|h1 [|h2 [|h3 [|]]]]] eqn:Eh; try discriminate.
-    cbn [nth]. destruct (Nat.eqb_spec hf h0) as [E|E]; cbn [negb].
-    - split; [right; left; reflexivity|]. subst hf. inversion Hnd as [|? ? Hn _]. intros E. apply Hn. left. exact E.
-    - split; [left; reflexivity | congruence].
+    intros H. unfold other_of. destruct (Nat.eqb_spec hf (nth 0 hfs 0)) as [E|E]; cbn [negb].
+    - split; [apply nth_In; rewrite Hlen; lia|]. rewrite E. intros F.
+      assert (1 = 0) by (apply (proj1 (NoDup_nth hfs 0) Hnd); [rewrite Hlen; lia | rewrite Hlen; lia | exact F]). discriminate.
+    - split; [apply nth_In; rewrite Hlen; lia | congruence].
   Qed.
 
   (* get_cell_vertices(hf) = the halfface's three vertices in its cyclic order, then the apex *)
@@ -675,28 +703,18 @@ Section WF.
   Lemma apex_of_each v : In v V -> exists hf, In hf hfs /\ is_apex hf v.
   Proof.
     intros Hv.
-    (* choose an apex for every halfface *)
     assert (Hap : forall hf, In hf hfs -> exists w, is_apex hf w).
     { intros hf H. destruct (Hhf hf H) as (_&L&_). destruct (apex_exists V (hf_vertices s hf) HV HVl L) as (w&a&b). exists w. split; assumption. }
-    destruct hfs as [|h0 [|h1 [|h2 [|h3 [|]]]]] eqn:Eh; try discriminate.
-    destruct (Hap h0 (or_introl eq_refl)) as (w0&A0).
-    destruct (Hap h1 (or_intror (or_introl eq_refl))) as (w1&A1).
-    destruct (Hap h2 (or_intror (or_intror (or_introl eq_refl)))) as (w2&A2).
-    destruct (Hap h3 (or_intror (or_intror (or_intror (or_introl eq_refl))))) as (w3&A3).
+    destruct (forall2_exists is_apex hfs Hap) as (ws&F).
     (* distinct halffaces have distinct apexes: the apex of one lies in every other *)
-    assert (D : forall hf hf' w w', In hf [h0; h1; h2; h3] -> In hf' [h0; h1; h2; h3] -> hf <> hf' -> is_apex hf w -> is_apex hf' w' -> w <> w').
-    { intros hf hf' w w' H H' N A A' E. subst w'. apply (proj2 A'). apply (apex_in_others hf hf' w H H' N A). }
-    inversion Hnd as [|? ? n0 Hnd1]; subst. inversion Hnd1 as [|? ? n1 Hnd2]; subst. inversion Hnd2 as [|? ? n2 Hnd3]; subst.
-    inversion Hnd3 as [|? ? n3 _]; subst. simpl in n0, n1, n2.
-    assert (ND : NoDup [w0; w1; w2; w3]).
-    { repeat constructor; simpl; intros F; repeat destruct F as [F|F]; try contradiction;
-        (eapply D; [| | | eassumption | eassumption | exact F] || (eapply D; [| | | eassumption | eassumption | exact (eq_sym F)])); simpl; auto; intuition congruence. }
-    assert (I : incl [w0; w1; w2; w3] V).
-    { intros a [E|[E|[E|[E|[]]]]]; subst a; [exact (proj1 A0) | exact (proj1 A1) | exact (proj1 A2) | exact (proj1 A3)]. }
-    assert (I' : incl V [w0; w1; w2; w3]).
-    { apply NoDup_length_incl; [exact ND | rewrite HVl; simpl; lia | exact I]. }
-    destruct (I' v Hv) as [E|[E|[E|[E|[]]]]]; subst v;
-      [exists h0 | exists h1 | exists h2 | exists h3]; (split; [simpl; auto | assumption]).
+    assert (ND : NoDup ws).
+    { apply (forall2_nodup is_apex hfs ws Hnd F). intros hf hf' w w' H H' N A A' E. subst w'.
+      apply (proj2 A'). apply (apex_in_others hf hf' w H H' N A). }
+    assert (I : incl ws V).
+    { intros w Hw. destruct (forall2_in_r is_apex hfs ws w F Hw) as (hf&_&A). exact (proj1 A). }
+    assert (I' : incl V ws).
+    { apply NoDup_length_incl; [exact ND | rewrite <- (forall2_len _ _ _ F), Hlen, HVl; lia | exact I]. }
+    destruct (forall2_in_r is_apex hfs ws v F (I' v Hv)) as (hf&H&A). exists hf. split; assumption.
   Qed.
 
   Theorem hov_voh_inverse v : In v V ->
@@ -707,3 +725,100 @@ Section WF.
     split; [exact (proj2 A)|]. destruct (hov_wf hf H) as (w&A'&E). rewrite E. do 2 f_equal. apply (apex_fun hf); assumption.
   Qed.
 End WF.
+
+(* ---- the variants with a start vertex / start halfedge, and the iterator: function-level contracts *)
+
+(* get_cell_vertices(c) is get_cell_vertices of the cell's first halfface *)
+Lemma gcv_c_first s c hfs h0 : nth_error (cells s) c = Some hfs -> nth_error hfs 0 = Some h0 -> gcv_c s c = gcv_hf s h0.
+Proof. intros A B. unfold gcv_c, bind, rd. rewrite A, B. reflexivity. Qed.
+
+(* get_cell_vertices(c, v): v first, the cyclic order of the first halfface kept, the orientation preserved *)
+Theorem gcv_c_v_spec s c x y z w v : gcv_c s c = Some [x; y; z; w] -> NoDup [x; y; z; w] ->
+  (v = x -> gcv_c_v s c v = Some [x; y; z; w]) /\
+  (v = y -> gcv_c_v s c v = Some [y; z; x; w]) /\
+  (v = z -> gcv_c_v s c v = Some [z; x; y; w]) /\
+  (v = w -> gcv_c_v s c v = Some [w; y; x; z]) /\
+  (~ In v [x; y; z; w] -> gcv_c_v s c v = Some [x; y; z; w]).
+Proof.
+  intros G ND. unfold gcv_c_v, bind. rewrite G. cbn [rd nth_error].
+  inversion ND as [|? ? n1 ND1]; subst. inversion ND1 as [|? ? n2 ND2]; subst. inversion ND2 as [|? ? n3 _]; subst.
+  simpl in n1, n2, n3.
+  repeat split; intros E; subst;
+    repeat match goal with |- context [?a =? ?b] => destruct (Nat.eqb_spec a b); try (exfalso; simpl in *; intuition congruence) end;
+    try reflexivity.
+Qed.
+
+(* get_cell_vertices(hf, he): starts at the from-vertex of he, cyclic order of hf kept, apex last *)
+Theorem gcv_hf_he_spec s hf he x y z w : gcv_hf s hf = Some [x; y; z; w] -> NoDup [x; y; z; w] ->
+  (he_from s he = x -> gcv_hf_he s hf he = Some [x; y; z; w]) /\
+  (he_from s he = y -> gcv_hf_he s hf he = Some [y; z; x; w]) /\
+  (he_from s he = z -> gcv_hf_he s hf he = Some [z; x; y; w]).
+Proof.
+  intros G ND. unfold gcv_hf_he, bind. rewrite G. cbn [rd nth_error].
+  inversion ND as [|? ? n1 ND1]; subst. inversion ND1 as [|? ? n2 ND2]; subst. inversion ND2 as [|? ? n3 _]; subst.
+  simpl in n1, n2, n3.
+  repeat split; intros E; rewrite E;
+    repeat match goal with |- context [?a =? ?b] => destruct (Nat.eqb_spec a b); try (exfalso; simpl in *; intuition congruence) end;
+    cbn [rd nth_error firstn];
+    repeat match goal with |- context [?a =? ?b] => destruct (Nat.eqb_spec a b) end; reflexivity.
+Qed.
+
+(* the tet vertex iterator enumerates get_cell_vertices(c), lap after lap *)
+Theorem tet_iter_spec s c a b d e laps : gcv_c s c = Some [a; b; d; e] ->
+  tet_iter s c laps = Some (concat (repeat [a; b; d; e] laps)).
+Proof. intros G. unfold tet_iter, tet_iter_vertices, bind. rewrite G. reflexivity. Qed.
+
+Theorem tet_iter_ub s c : gcv_c s c = Some [] -> tet_iter s c 1 = None.
+Proof. intros G. unfold tet_iter, tet_iter_vertices, bind. rewrite G. reflexivity. Qed.
+
+(* ---- non-vacuity: a tetrahedron built from four vertices is well-formed *)
+Definition one_tet : mesh := tet_run [TK (AddVertices 4); TAddCellV [0; 1; 2; 3] true].
+
+Example one_tet_wf : tet_wf one_tet 0 [0; 2; 4; 6] [0; 1; 2; 3].
+Proof.
+  unfold tet_wf. split; [vm_compute; reflexivity|]. split; [reflexivity|].
+  split; [repeat constructor; simpl; intuition discriminate|].
+  split; [repeat constructor; simpl; intuition discriminate|]. split; [reflexivity|]. split.
+  - intros hf [E|[E|[E|[E|[]]]]]; subst hf; (split; [vm_compute; reflexivity|]); (split; [vm_compute; reflexivity|]);
+      (split; [vm_compute; repeat constructor; simpl; intuition discriminate|]);
+      vm_compute; intros a H; repeat destruct H as [H|H]; subst; simpl; auto 6.
+  - intros hf hf' [E|[E|[E|[E|[]]]]] [E'|[E'|[E'|[E'|[]]]]] N; subst hf hf'; try congruence; vm_compute; intros I;
+      match goal with I : forall a, _ -> _ |- _ =>
+        first [ pose proof (I 0 ltac:(simpl; auto)) as X; simpl in X; intuition discriminate
+              | pose proof (I 1 ltac:(simpl; auto)) as X; simpl in X; intuition discriminate
+              | pose proof (I 2 ltac:(simpl; auto)) as X; simpl in X; intuition discriminate
+              | pose proof (I 3 ltac:(simpl; auto)) as X; simpl in X; intuition discriminate ] end.
+Qed.
+
+Example one_tet_queries :
+  gcv_c one_tet 0 = Some [0; 1; 2; 3] /\ gcv_c_v one_tet 0 3 = Some [3; 1; 0; 2] /\
+  halfface_opposite_vertex one_tet 4 = Some (Some 2) /\ vertex_opposite_halfface one_tet 0 2 = Some (Some 4) /\
+  tet_iter one_tet 0 2 = Some [0; 1; 2; 3; 0; 1; 2; 3].
+Proof. vm_compute. repeat split. Qed.
+
+(* ================================================================== 6. the FULL shape statement is refuted *)
+
+(* the property's shape: valences AND every live cell on exactly four distinct vertices *)
+Definition cell_vertex_set (s : mesh) (c : nat) : list nat := set_of_list (flat_map (hf_vertices s) (cell_at s c)).
+Definition tet_shape_full (s : mesh) : Prop :=
+  tet_shape s /\ forall c, live_c s c = true -> length (cell_vertex_set s c) = 4.
+
+(* two "pillows" (two faces on the same three halfedges each): four triangular halffaces, twelve halfedges on six
+   edges, each used once in each direction - the topology check of add_cell accepts the list, the cell has SIX
+   vertices.  Only additions are used. *)
+Definition two_pillows : list top :=
+  [TK (AddVertices 6);
+   TK (AddFaceV [0; 1; 2]); TK (AddFace [0; 2; 4] false);
+   TK (AddFaceV [3; 4; 5]); TK (AddFace [6; 8; 10] false);
+   TK (AddCell [0; 3; 4; 7] true)].
+
+Lemma tet_shape_full_refuted :
+  exists ops, inside_along empty_mesh ops /\ (exists c, tet_step (tet_run (removelast ops)) (last ops (TK AddVertex)) = TOk (tet_run ops) (Some c)) /\
+              ~ tet_shape_full (tet_run ops).
+Proof.
+  exists two_pillows. split; [vm_compute; repeat split|]. split; [exists 0; vm_compute; reflexivity|].
+  intros [_ H]. specialize (H 0 eq_refl). vm_compute in H. discriminate.
+Qed.
+
+Example two_pillows_cell : cell_vertex_set (tet_run two_pillows) 0 = [0; 1; 2; 3; 4; 5] /\ tet_shape (tet_run two_pillows).
+Proof. split; [vm_compute; reflexivity | apply tet_shape_run; vm_compute; repeat split]. Qed.
